@@ -215,7 +215,29 @@ def _guard(func, it):
             last = inside[-1]
             where = "%s:%s" % (os.path.relpath(last.filename, REPO), last.name)
             return ("CODE_EXC", {"type": type(e).__name__, "where": where, "message": str(e)[:400], "traceback": text, "case": _brief(it)})
+        internal = _internal_connection_error(str(e))
+        if internal:
+            # the framework refused, at set-up, a connection that a group of the code under test makes between two of its own
+            # components (both end points below the same library-built group): the admissible model cannot be built
+            return ("CODE_EXC", {"type": "SetupConnectionError", "where": internal, "message": str(e)[:600], "traceback": text, "case": _brief(it)})
         return ("EXC", text)
+
+
+def _internal_connection_error(msg):
+    """'group-path' if every "Can't connect 'a' to 'b'" line of a collected set-up error has both ends below the same top-level
+    subsystem (a group built by the library, not a connection the harness made between top-level subsystems); else None."""
+    import re
+
+    pairs = re.findall(r"Can't connect '([^']+)' to '([^']+)'", msg)
+    if not pairs:
+        return None
+    tops = set()
+    for a, b in pairs:
+        ta, tb_ = a.split(".")[0], b.split(".")[0]
+        if ta != tb_ or "." not in a or "." not in b:
+            return None
+        tops.add(ta)
+    return "setup:" + "+".join(sorted(tops))
 
 
 def _brief(it):
